@@ -3,19 +3,31 @@ use crate::out::Out;
 
 pub mod exec;
 pub mod inset;
+pub mod tyenc;
 
 pub fn run(stream: &str, cfg: Cfg, out: &mut Out) -> bool {
     match stream {
         "inset" => inset::run(cfg, out),
+        "tyenc" => tyenc::run(cfg, out),
         s if s.starts_with("exec-") => exec::run(&s[5..], cfg, out),
         _ => return false,
     }
     true
 }
 
+/// replay of a stateless op line, dispatched on its first word
+pub fn replay_any(line: &str) -> Option<String> {
+    match line.split(' ').next()? {
+        "inset" => inset::replay(line),
+        "tyenc" => tyenc::replay(line),
+        _ => None,
+    }
+}
+
 pub fn replay(stream: &str, op: &str) -> Option<String> {
     match stream {
         "inset" => inset::replay(op),
+        "tyenc" => tyenc::replay(op),
         _ => None,
     }
 }
